@@ -70,7 +70,7 @@ def run_cmd(backend, cred, fn, *, concurrent=2, cache=None, unlock=True):
     return res, c.out.getvalue()
 
 
-def add_key(backend, cred, *, new_password, shared, settings=None, concurrent=2):
+def add_key(backend, cred, *, new_password, shared, settings=None, concurrent=2, return_printed=False):
     import copy
 
     async def main():
@@ -78,8 +78,10 @@ def add_key(backend, cred, *, new_password, shared, settings=None, concurrent=2)
         if shared:
             await repo.unlock(password=cred.password, key=cred.key)
         return await repo.add_key(password=new_password, settings=copy.deepcopy(settings), shared=shared)
-    with capture():
+    with capture() as c:
         res = asyncio.run(main())
+    if return_printed:
+        return refimpl.dumps(res.new_key), c.out.getvalue()
     return refimpl.dumps(res.new_key)
 
 
